@@ -211,6 +211,7 @@ fn subscription(flavour: Flavour, n_ext: usize, out: &mut CaseOut) {
     // attribute responses: per root key, k-th response <-> k-th event of the channel
     let key_to_ch: BTreeMap<String, (i32, String)> = roots.iter().map(|(k, f, ch)| (k.clone(), (*ch, f.clone()))).collect();
     let mut seen_per_key: BTreeMap<String, usize> = BTreeMap::new();
+    let mut answered: BTreeMap<i32, std::collections::BTreeSet<i32>> = BTreeMap::new();
     for resp in &run.responses {
         // root key: the single data key, or the first path segment of the errors
         let data = data_of(resp);
@@ -228,11 +229,27 @@ fn subscription(flavour: Flavour, n_ext: usize, out: &mut CaseOut) {
             out.viol("C27/unknown-root-key", format!("response {resp} is for root key '{key}' which the document does not select; {ctx}"));
             return;
         };
-        let k = *seen_per_key.entry(key.clone()).and_modify(|n| *n += 1).or_insert(0);
-        let Some(ev) = per_channel[ch].get(k) else {
+        // which event is this the response of? by the id the payload carries when there is one (the
+        // property does not fix the order of responses), else the first unanswered event of the channel
+        let _ = seen_per_key.entry(key.clone()).and_modify(|n| *n += 1).or_insert(0);
+        let used = answered.entry(*ch).or_default();
+        let by_id = data[&key]["id"].as_i64().map(|i| i as i32).filter(|i| per_channel[ch].contains(i));
+        let ev_found = match by_id {
+            Some(i) => {
+                if used.contains(&i) {
+                    out.viol("C27/duplicate-response", format!("event {i} of '{key}' was answered twice: {resp}; {ctx}"));
+                    return;
+                }
+                Some(i)
+            }
+            None => per_channel[ch].iter().find(|e| !used.contains(*e)).cloned(),
+        };
+        let Some(ev) = ev_found else {
             out.viol("C27/extra-response", format!("root key '{key}' produced more responses than its channel had events: {resp}; {ctx}"));
             return;
         };
+        used.insert(ev);
+        let ev = &ev;
         // errors of other events / other roots in this response?
         let foreign: Vec<&(String, String)> = errs.iter().filter(|(p, _)| p.split('.').next() != Some(key.as_str())).collect();
         if !foreign.is_empty() {
